@@ -398,3 +398,8 @@ mod tests {
         }
     }
 }
+
+// verification hook (guard: cfg(kani)); contract harnesses live outside the repository
+#[cfg(kani)]
+#[path = "/verif/kani/ntp_proto/packet/v5/server_reference_id.rs"]
+mod verif;
